@@ -240,7 +240,7 @@ struct Encoding<Table, EnableIfHasEntryList<Table>> : EncodingIO<Table> {
         return status;
 
       // Default construct the entry;
-      *entry = T{};
+      *entry = Optional<T>{T{}};
 
       // Use a BoundedReader to handle any padding that might follow the
       // value and catch invalid sizes while decoding inside the binary
